@@ -312,6 +312,63 @@ impl C09 {
     }
 }
 
+#[derive(Debug, Deserialize)]
+#[allow(dead_code)]
+struct SpannedDoc {
+    #[serde(default)]
+    x: Option<String>,
+    k: serde_saphyr::Spanned<String>,
+}
+
+/// Positions behind comments: a key after a comment line, a quoted value followed by blanks and a comment, an error
+/// on the line of a comment - with 1- to 4-byte characters in the comment. Value, line, column, span offset and
+/// span length of a `Spanned` field (or the error's kind and position) must be the same from a string and from a
+/// reader.
+fn comment_family(acc: &mut Acc) {
+    let mut docs: Vec<(String, &'static str)> = Vec::new();
+    for ch in ["a", "é", "€", "😀"] {
+        for n in [1usize, 3] {
+            let c = ch.repeat(n);
+            docs.push((format!("# {}\nk: a\n", c), "key after a comment line"));
+            docs.push((format!("x: y # {}\nk: a\n", c), "key after a line with a trailing comment"));
+            docs.push((format!("k: \"a\"   # {}\n", c), "double-quoted value followed by blanks and a comment"));
+            docs.push((format!("k: 'a'   # {}\n", c), "single-quoted value followed by blanks and a comment"));
+            docs.push((format!("k: \"a\"\n# {}\n", c), "double-quoted value, comment on the next line"));
+            docs.push((format!("x: y\n&b\n #{}", c), "error on the line of a comment"));
+            docs.push((format!("# {}\nk: [\n", c), "error after a comment line"));
+        }
+    }
+    for (text, shape) in docs {
+        acc.evaluations += 1;
+        acc.compared += 1;
+        acc.nontrivial += 1;
+        acc.class("comment_family", 1);
+        let sig = |r: Result<SpannedDoc, serde_saphyr::Error>| -> String {
+            match r {
+                Ok(d) => format!("Ok(value={:?}, at {}:{}, span offset {} length {})", d.k.value, d.k.referenced.line(), d.k.referenced.column(), d.k.referenced.span().offset(), d.k.referenced.span().len()),
+                Err(e) => format!("Err{:?}", err_sig(&e)),
+            }
+        };
+        let r = guarded(|| {
+            let a = sig(serde_saphyr::from_str::<SpannedDoc>(&text));
+            let b = sig(serde_saphyr::from_reader::<_, SpannedDoc>(ScheduleReader::fixed(text.as_bytes(), 4096)));
+            let c = sig(serde_saphyr::from_reader::<_, SpannedDoc>(ScheduleReader::fixed(text.as_bytes(), 1)));
+            (a, b, c)
+        });
+        acc.execs += 3;
+        let multibyte = text.bytes().any(|b| b >= 0x80);
+        let key = |clause: &str| format!("{}|{}|{}|{:?}", clause, shape, if multibyte { "multi-byte comment" } else { "ASCII comment" }, text);
+        match r {
+            Err(p) => acc.add_violation(key("panic"), "panic", p, json!({"text": text}), json!({})),
+            Ok((a, b, c)) => {
+                if a != b || a != c {
+                    acc.add_violation(key("position_differs_between_string_and_reader"), "position_differs_between_string_and_reader", format!("{:?}: from_str gives {}, from_reader gives {} (whole) / {} (1-byte reads)", text, a, b, c), json!({"text": text}), json!({}));
+                }
+            }
+        }
+    }
+}
+
 pub fn run(ctx: &Ctx) -> i32 {
     let p = C09 { max_partition_bytes: ctx.tier.pick(12, 16) };
     let max_len = ctx.tier.pick(3, 4);
@@ -341,6 +398,7 @@ pub fn run(ctx: &Ctx) -> i32 {
     let a2 = run_list(&p, &cases);
     acc = acc.merge(a2);
     acc.notes.insert("corpus_documents".into(), json!(corpus.len()));
+    comment_family(&mut acc);
     let meta = Meta {
         level: "model_checking",
         rule: "every token string up to the length bound over a 29-token alphabet (multi-byte characters, CR/LF/CRLF, BOM, indicators) x 5 targets; per input: from_str vs from_slice vs closure helpers vs from_reader under ALL 2^(n-1) partitions of its n bytes (n <= partition bound; fixed chunk sizes beyond), BOM-stripping, borrowed vs owned; non-trivial = multi-byte, CR or '- ' present (a split can fall inside a character / between CR and LF / inside an indicator)".into(),
